@@ -35,6 +35,16 @@ struct Dig {
         raw(x.data(), x.size() * sizeof(T));
         raw("|", 1);
     }
+    void h(const ST::string &x)  // long values: size, checksum, both ends
+    {
+        unsigned long long f = 1469598103934665603ull;
+        for (size_t i = 0; i < x.size(); ++i) f = (f ^ (unsigned char)x.c_str()[i]) * 1099511628211ull;
+        num((long long)x.size());
+        num((long long)(f >> 1));
+        raw(x.c_str(), x.size() < 24 ? x.size() : 24);
+        if (x.size() > 24) raw(x.c_str() + x.size() - 24, 24);
+        raw("|", 1);
+    }
     void num(long long v)
     {
         char t[24];
@@ -65,7 +75,9 @@ static const char *const OP_NAMES[] = {
     "starts_with/ends_with/contains",      "char_buffer compare/copy",    "format_latin_1",            "istringstream >> string",
     "literal operators _st/_stbuf/_stfmt (per-thread literals)", "failing decodes and conversions: exception text (per-thread inputs)",
     "failing format calls: exception text", "wide streams: wostringstream << / wistringstream >> / writef",
-    "accessors of the shared strings and buffer (c_str/data/at/front/back/iterators/view/c_str(substitute)/null comparisons)"};
+    "accessors of the shared strings and buffer (c_str/data/at/front/back/iterators/view/c_str(substitute)/null comparisons)",
+    "strings built from malformed UTF-8/16/32 with substitute_invalid (per-thread inputs, short/in-object, medium, long)",
+    "outputs growing past 256/512/1024/4096 bytes (per-thread sizes): format, string_stream, +=, replace, hex/base64"};
 
 extern "C" int c20_num_ops() { return (int)(sizeof OP_NAMES / sizeof *OP_NAMES); }
 extern "C" const char *c20_op_name(int op) { return OP_NAMES[op]; }
@@ -174,7 +186,7 @@ extern "C" void c20_run_op(int op, int salt, const C20Shared *sh, char *out, siz
     case 27: {
         ST::string_stream ss;
         for (int i = 0; i < 9; ++i) ss << L << i * (salt + 1) << ' ' << 0.5 * i;
-        ss.append_char('#', 300);
+        ss.append_char('#', 300 + 700 * salt);
         d.s(ss.to_string());
         break;
     }
@@ -358,6 +370,60 @@ extern "C" void c20_run_op(int op, int salt, const C20Shared *sh, char *out, siz
         ST::writef(os, salt == 0 ? "{x}|{}|{>_*20}|{<_.7}" : salt == 1 ? "{x}|{}|{>_#20}|{<_,7}" : "{x}|{}|{>20}|{<_;7}", 255 + salt, L, 77 + salt, "cd");
         std::string r = os.str();
         d.raw(r.data(), r.size());
+        break;
+    }
+    case 41: {
+        // repairs go through the library's clean-up buffers: inputs of this thread's own, in three size classes
+        static const char *const SHORT8[3] = {"a\xFFz", "\xC3(", "\xE2\x82"};
+        std::string med = std::string(salt ? "\x80" : "\xFF\xFF") + std::string(18 + 5 * salt, (char)('B' + salt)) + "\xE2\x82\xAC\xE2\x82";
+        std::string lng = std::string(90 + 40 * salt, (char)('k' + salt)) + "\xF0\x9F" + std::string(30, '.') + "\xC0\xAF";
+        d.s(ST::string(SHORT8[salt], ST_AUTO_SIZE, ST::substitute_invalid));
+        d.s(ST::string(med.data(), med.size(), ST::substitute_invalid));
+        d.s(ST::string::from_utf8(lng.data(), lng.size(), ST::substitute_invalid));
+        ST::string t;
+        t.set(med, ST::substitute_invalid);
+        d.s(t);
+        char16_t b16[40];
+        for (int i = 0; i < 40; ++i) b16[i] = (char16_t)(i % 7 == salt ? 0xD800 + i : 0x100 + i + salt);
+        d.s(ST::string::from_utf16(b16, 40, ST::substitute_invalid));
+        d.s(ST::string(b16, 5, ST::substitute_invalid));
+        char32_t b32[30];
+        for (int i = 0; i < 30; ++i) b32[i] = (char32_t)(i % 5 == salt ? 0x110000 + i : 0x20AC + i + salt);
+        d.s(ST::string::from_utf32(b32, 30, ST::substitute_invalid));
+        d.b(ST::utf8_to_utf32(med.data(), med.size(), ST::substitute_invalid));
+        d.b(ST::utf8_to_latin_1(lng.data(), lng.size(), ST::substitute_invalid));
+        d.b(ST::utf32_to_utf16(b32, 30, ST::substitute_invalid));
+        d.s(ST::format(ST::substitute_invalid, "{}|{}", med.c_str(), SHORT8[salt]));
+        break;
+    }
+    case 42: {
+        // every internal buffer boundary is crossed, by a different amount in every thread
+        static const size_t LEN[3] = {300, 700, 4200};
+        const size_t n = LEN[salt];
+        std::string txt(n, (char)('p' + salt));
+        ST::string big = ST::string::from_validated(txt.data(), txt.size());
+        std::string f1 = "{}|{>" + std::to_string(n + 9) + "}|{}";
+        d.h(ST::format(f1.c_str(), salt, "x", big));
+        ST::string_stream ss;
+        ss << big << salt;
+        ss.append(txt.data(), txt.size());
+        ss.append_char('-', n / 2);
+        ss << 1.5 * (salt + 1) << -1234567 - salt;
+        d.num((long long)ss.size());
+        d.h(ss.to_string());
+        ST::string acc;
+        for (int i = 0; i < 6; ++i) acc += big.left(n / 5);
+        d.h(acc);
+        d.h(big.replace("p", "pq").replace(salt ? "q" : "r", "----"));
+        d.num((long long)big.split((char)('p' + salt)).size());
+        d.h(ST::hex_encode(txt.data(), n));
+        d.h(ST::base64_encode(txt.data(), n));
+        d.h(ST::string::from_utf16(big.to_utf16()));
+        d.h(ST::string::from_validated(ST::latin_1_to_utf8(txt.data(), n)));
+        std::ostringstream os;
+        std::string f2 = "{}{<" + std::to_string(n) + "}";
+        ST::writef(os, f2.c_str(), big, salt);
+        d.num((long long)os.str().size());
         break;
     }
     }
